@@ -37,8 +37,10 @@ ASSUMPTIONS = [
     'SparseVector division rule used by chemical_splits is probed at start-up (present heuristic or raise-on-any-zero-divisor); '
     'the theorem holds for both',
 ]
-TRUSTED = ['model coq/C20/Model.v is hand-written from thermosteam/separations.py and equilibrium/binary_phase_fraction.py; '
-           'tie = correspondence check on every run',
+TRUSTED = ['model coq/C20/Model.v is hand-written from thermosteam/separations.py and equilibrium/binary_phase_fraction.py '
+           '(no translator; DESIGN mentions one for handle_infeasible_flow_rates, the tie is the correspondence check on every run)',
+           'the model follows the source with pending_fixes/C20_1..6 applied; on a tree without them the CORPUS cases '
+           'reproduce each defect (mismatch + direct oracle message)',
            'material_balance(balance="composition") (iteration to convergence) and MultiStageEquilibrium are not modelled']
 CASE_TIMEOUT = 60
 
@@ -902,9 +904,11 @@ def oracle(case):
         feed, top, bot = case['feed'], out['top'], out['bot']
         if not close(vadd(top, bot), feed):
             return f'partition: top + bottom = {vadd(top, bot)} differs from the feed {feed}'
-        fresh = all(case['bot0'][i] == 0 for i in range(N) if i not in involved)
-        if fresh and not (nonneg(top) and nonneg(bot)):
-            return f'partition: negative flow without a report: top {top} bottom {bot}'
+        # chemicals partition writes (equilibrium + forced) must come out non-negative whatever the outlets held;
+        # the others only if the bottom did not hold more of them than the feed
+        checked = [i for i in range(N) if i in involved or 0 <= case['bot0'][i] <= feed[i]]
+        if any(top[i] < -1e-12 or bot[i] < -1e-12 for i in checked):
+            return f'partition: negative flow without a report: top {top} bottom {bot} (previous bottom {case["bot0"]})'
         for i in case['topc']:
             if bot[i] != 0: return 'partition: forced top chemical found in the bottom'
         for i in case['botc']:
@@ -942,6 +946,12 @@ def oracle(case):
             if eff >= 0 and not all(close(x, y) for x, y in zip(sorted([out['top'], out['bot']]), exp)):
                 return (f'lle: outlets {out["top"]} / {out["bot"]} are not the two phases with a fraction '
                         f'{1 - eff} of the feed divided equally')
+            if case['top_chemical'] is None and case['eff'] >= 1:
+                rt, rb = rho_exact(out['top']), rho_exact(out['bot'])
+                if rt is not None and rb is not None and rt > rb:
+                    return f'lle: the denser phase ({float(rt)} kg/m3) went to the top outlet, the lighter ({float(rb)}) to the bottom'
+                if rt is None and rb is not None:
+                    return 'lle: the only non-empty phase went to the bottom outlet'
         return None
     if fn == 'phase_split':
         if len(case['outs0']) != len(case['phases']):
